@@ -36,6 +36,8 @@ class Env:
         self.nAtt = 0
         self.intent = "never-started"   # last of startService/stopService issued by the user
         self.spending = set()           # stopService Deferreds not fired yet
+        self.rejected = set()           # connections whose prepareConnection hook failed
+        self.abandoned = set()          # connections whose pending prepareConnection Deferred the service cancelled
         self.wthen = {}                 # unfired whenConnected Deferreds: id -> (limit, then)
         self.sthen = {}                 # unfired stopService Deferreds: id -> then
         self.nConn = 0
@@ -106,8 +108,12 @@ class Env:
             if env.hmode == "ok":
                 return None
             if env.hmode == "fail":
+                env.rejected.add(cid)
                 raise RuntimeError("rejected by prepareConnection")
-            d = Deferred(lambda _d, cid=cid: env.hooks.pop(cid, None))
+            def hook_cancelled(_d, cid=cid):
+                env.hooks.pop(cid, None)
+                env.abandoned.add(cid)
+            d = Deferred(hook_cancelled)
             env.hooks[cid] = d
             return d
 
@@ -145,12 +151,12 @@ class Env:
         """Perform a user call; returns (res, newid)."""
         try:
             if call == "start":
-                self.svc.startService()
                 self.intent = "started"
+                self.svc.startService()
                 return "ok", 0
             if call == "stop":
-                d = self.svc.stopService()
                 self.intent = "stopped"
+                d = self.svc.stopService()
                 self.nS += 1
                 sid = self.nS
                 self.spending.add(sid)
@@ -206,12 +212,12 @@ class Env:
         return ops
 
     def phase(self):
-        """Environment-side description of the situation (what a user could know), for fingerprints."""
-        cs = []
-        for c in sorted(self.conns):
-            cs.append("conn(%s)" % ("preparing" if c in self.hooks else "open"))
-        return "%s|%s%s%s%s" % (self.intent, "attempt," if self.att else "", ",".join(cs) or ("-" if not self.att else ""),
-                                "|stop-pending" if self.spending else "", "|waiters-pending" if self.wthen else "")
+        """Environment-side description of the situation (what a user could know), for fingerprints only."""
+        def label(c):
+            return ("preparing" if c in self.hooks else "rejected" if c in self.rejected
+                    else "abandoned" if c in self.abandoned else "open")
+        return {"intent": self.intent, "attempt": bool(self.att), "conns": {str(c): label(c) for c in sorted(self.conns)},
+                "stop_pending": bool(self.spending), "waiters_pending": bool(self.wthen)}
 
     def step(self, op):
         """Execute one top-level op; append its event.  Returns False if the op is not applicable."""
@@ -247,6 +253,7 @@ class Env:
                 if kind == "prepok":
                     d.callback(None)
                 else:
+                    self.rejected.add(c)
                     d.errback(RuntimeError("rejected by prepareConnection (async)"))
             elif kind == "drop":
                 c = op[1]
